@@ -331,6 +331,26 @@ func leavesOf(v ssa.Value, f an.Facts, depth int) []leafVal {
 			out = append(out, leavesOf(e, append(append(an.Facts{}, f...), an.EdgeFacts(pred, si)...), depth+1)...)
 		}
 		return out
+	case *ssa.Extract:
+		// one result of a private helper returning several values (`return tx.evalBodyPhase()`)
+		call, ok := x.Tuple.(*ssa.Call)
+		if !ok {
+			return []leafVal{{v, f}}
+		}
+		h := call.Call.StaticCallee()
+		if h == nil || call.Call.IsInvoke() || len(h.Blocks) == 0 || h.Pkg == nil || !strings.HasPrefix(h.Pkg.Pkg.Path(), an.ModPath) || token.IsExported(h.Name()) {
+			return []leafVal{{v, f}}
+		}
+		var out []leafVal
+		an.Instrs(h, func(in ssa.Instruction) {
+			if r, ok := in.(*ssa.Return); ok && x.Index < len(r.Results) {
+				out = append(out, leavesOf(r.Results[x.Index], append(append(an.Facts{}, f...), an.FactsAtBlock(r.Block())...), depth+1)...)
+			}
+		})
+		if len(out) == 0 {
+			return []leafVal{{v, f}}
+		}
+		return out
 	case *ssa.Call:
 		h := x.Call.StaticCallee()
 		if h == nil || x.Call.IsInvoke() || len(h.Blocks) == 0 || h.Pkg == nil || !strings.HasPrefix(h.Pkg.Pkg.Path(), an.ModPath) || token.IsExported(h.Name()) || h.Signature.Results().Len() != 1 {
@@ -348,4 +368,50 @@ func leavesOf(v ssa.Value, f an.Facts, depth int) []leafVal {
 		return out
 	}
 	return []leafVal{{v, f}}
+}
+
+// privateCallees lists the unexported functions and methods of package pkgRel (with a body, not closures) that fn
+// calls directly: the helpers a maintainer may have moved part of fn into.
+func privateCallees(fn *ssa.Function, pkgRel string) []*ssa.Function {
+	var out []*ssa.Function
+	seen := map[*ssa.Function]bool{}
+	an.Instrs(fn, func(in ssa.Instruction) {
+		cc := an.CallOf(in)
+		if cc == nil || cc.StaticCallee() == nil {
+			return
+		}
+		h := cc.StaticCallee()
+		if h == fn || seen[h] || relPkg(h) != pkgRel || len(h.Blocks) == 0 || token.IsExported(h.Name()) || h.Parent() != nil {
+			return
+		}
+		seen[h] = true
+		out = append(out, h)
+	})
+	return out
+}
+
+// callsThrough: x calls target directly, or calls a private helper of the module every path of which (to any of
+// its returns) calls target.
+func callsThrough(x ssa.Instruction, target *ssa.Function) bool {
+	if an.IsCallTo(x, target) {
+		return true
+	}
+	cc := an.CallOf(x)
+	if cc == nil || cc.StaticCallee() == nil {
+		return false
+	}
+	h := cc.StaticCallee()
+	if h == target || len(h.Blocks) == 0 || h.Pkg == nil || !strings.HasPrefix(h.Pkg.Pkg.Path(), an.ModPath) || token.IsExported(h.Name()) {
+		return false
+	}
+	has := false
+	an.Instrs(h, func(y ssa.Instruction) {
+		if an.IsCallTo(y, target) {
+			has = true
+		}
+	})
+	if !has {
+		return false
+	}
+	return an.FindPath(an.PathQuery{Fn: h, Stop: func(y ssa.Instruction) bool { return an.IsCallTo(y, target) }, Target: an.IsReturn}) == nil
 }
